@@ -60,7 +60,7 @@ func (f *vfAnyFetcher) value(name string) Value {
 	return v
 }
 func (f *vfAnyFetcher) Get(_ VariableKey, name string) (Value, error) { return f.value(name), nil }
-func (f *vfAnyFetcher) Set(_ VariableKey, _ string, _ Value) error      { return nil }
+func (f *vfAnyFetcher) Set(_ VariableKey, _ string, _ Value) error    { return nil }
 func (f *vfAnyFetcher) Cached(_ VariableKey, name string) bool {
 	if !f.part {
 		return true
